@@ -448,15 +448,33 @@ func run(c *mc.Ctx, r *mc.Result) {
 // complete observation is compared with the map model.
 func runFan(c *mc.Ctx, r *mc.Result) {
 	const letters = "0123456789ABCDEFGHIJKLMNOPQRSTUVWXYZabcdefghijklmnopqrstuvwxyz"
-	r.Bounds["fan"] = "48..53 static siblings under '/' and under '/{p}/' x {Handle new first/middle/last, Update/Delete first/middle/last, UpdateRoute, HandleRoute} x {direct, committed txn, aborted txn}"
+	r.Bounds["fan"] = "48..53 static siblings under '/' and under '/{p}/' x {Handle new first/middle/last, Update/Delete first/middle/last, UpdateRoute, HandleRoute} x {direct, committed txn, aborted txn}; the same with a parameter edge and a catch-all edge on the big node and routes added / updated / deleted through them"
+	type fanCase struct {
+		prefix string
+		wild   bool
+	}
+	var fcs []fanCase
 	for _, prefix := range []string{"/", "/{p}/", "h.x/"} {
+		fcs = append(fcs, fanCase{prefix, false}, fanCase{prefix, true})
+	}
+	for _, fc := range fcs {
+		prefix := fc.prefix
 		for n := 48; n <= 53; n++ {
+			if fc.wild && n != 49 && n != 51 && n != 52 {
+				continue
+			}
 			// siblings use every other letter so that new ones can sort first, in the middle and last
 			var pats []string
 			for i := 0; i < n; i++ {
 				pats = append(pats, prefix+string(letters[1+i]))
 			}
 			newOnes := []string{prefix + string(letters[0]), prefix + string(letters[1+n/2]) + "x", prefix + string(letters[1+n])}
+			if fc.wild {
+				// the big node also has a parameter edge and a catch-all edge (registered last); new routes
+				// go through those edges
+				pats = append(pats, prefix+"{q}/aa", prefix+"*{w}/aa")
+				newOnes = append(newOnes, prefix+"{q}/bb", prefix+"*{w}/bb")
+			}
 			pool := &hist.Pool{Methods: []string{"GET"}, Patterns: append(append([]string{}, pats...), newOnes...)}
 			var seedPath []hist.Op
 			for _, p := range pats {
@@ -464,6 +482,9 @@ func runFan(c *mc.Ctx, r *mc.Result) {
 			}
 			from := &hist.State{Path: seedPath, Model: hist.ModelOf(seedPath)}
 			targets := []string{pats[0], pats[n/2], pats[n-1]}
+			if fc.wild {
+				targets = append(targets, prefix+"{q}/aa", prefix+"*{w}/aa")
+			}
 			var ops []hist.Op
 			for mode := 0; mode < 3; mode++ {
 				for _, p := range newOnes {
